@@ -190,13 +190,36 @@ def run(prog, chk):
     chk.ob('R03.4', R.ev['name'], 'runtime_evaluator', ok, 'free list is popped only by the allocator: %s' % [f.short for f in poppers], key='pop-in-allocator')
     if pushers:
         rel = pushers[0]
-        callers = {gf.short for gf, n in prog.callers(rel)}
+        def top_of(gf_):
+            while gf_.kind == 'lambda' and getattr(gf_, 'parent', None) is not None:
+                gf_ = gf_.parent
+            return gf_
+        callers = {top_of(gf).short for gf, n in prog.callers(rel)}       # a call inside a local closure belongs to the enclosing function
         chk.ob('R03.4', rel, rel.ln, callers <= {'destroyObject'} and bool(callers), 'release is called only when an object is destroyed: %s' % sorted(callers), key='release-callers')
         # each qubit slot of a destroyed object is released exactly once: the release sites sit in ONE sweep over the object's
         # field vector (optionally an inner sweep over the elements of a qubit[] slot), not in a walk over classes or class
         # metadata (a derived class's field table repeats the inherited fields, so a per-level walk releases them twice)
         from ..kernels import enclosing_stmts, full_range_for
+        sites = []
+        from ..kcanon import inline_closures
+        seen_tops = set()
         for gf, call in prog.callers(rel):
+            if gf.kind == 'lambda' and getattr(gf, 'parent', None) is not None:
+                # release inside a local closure that is called as a plain statement: the release sites are where the closure is
+                # called (the closure is read inlined at its call statements)
+                tf = top_of(gf)
+                if id(tf) in seen_tops:
+                    continue
+                seen_tops.add(id(tf))
+                tfi = inline_closures(prog, tf)
+                for c2 in SX.walk(tfi.body, into_lambdas=False):
+                    if c2.get('k') in ('call', 'mcall') and c2.get('callee') == rel.name:
+                        sites.append((tfi, c2))
+                if not any(t_ is tfi for t_, _ in sites):
+                    sites.append((gf, call))
+            else:
+                sites.append((gf, call))
+        for gf, call in sites:
             loops = [s_ for s_ in enclosing_stmts(gf.body, call) if s_['k'] in ('for', 'forrange', 'while', 'do')]
             detail = []
             ok = bool(loops)
